@@ -241,4 +241,114 @@ def runOne (g : Gen) : List Op → List Out
   | [] => []
   | op :: ops => let (g', o) := step g op; o :: runOne g' ops
 
+/-! ### Phase 4: the module-level generator, re-seeding and pickling
+
+`coba/random.py` keeps ONE module-level generator `_random`; `coba.random.seed(s)` REPLACES it by a
+fresh `CobaRandom(s)` (uniform stream *and* gaussian buffer start anew) and every other module
+function `f(args)` is `_random.f(args)`.  `CobaRandom.__reduce__` pickles `(CobaRandom,(self._seed,))`:
+the unpickled object is `CobaRandom(self._seed)` — the seed is restored, the position is not. -/
+
+/-- a generator object that remembers the (normalised) seed it was built from (`self._seed`) -/
+structure Inst where
+  seed0 : Nat
+  g : Gen
+deriving Repr
+
+/-- `CobaRandom(s)` for a normalised seed `s` -/
+def fresh (s : Nat) : Inst := { seed0 := s, g := { s := s } }
+
+inductive Call
+  /-- a method call, or the module function of the same name on the global -/
+  | op (o : Op)
+  /-- `coba.random.seed(s)`: the global is replaced by `CobaRandom(s)` -/
+  | reseed (s : Nat)
+  /-- the object is replaced by `pickle.loads(pickle.dumps(self))`, i.e. `CobaRandom(self._seed)` -/
+  | repickle
+deriving Repr
+
+def cstep (x : Inst) : Call → Inst × Option Out
+  | .op o => let (g', out) := step x.g o; ({ x with g := g' }, some out)
+  | .reseed s => (fresh s, none)
+  | .repickle => (fresh x.seed0, none)
+
+/-- the calls of one object alone -/
+def crunOne (x : Inst) : List Call → List Out
+  | [] => []
+  | c :: cs =>
+    let (x', o) := cstep x c
+    match o with
+    | some out => out :: crunOne x' cs
+    | none => crunOne x' cs
+
+/-- the object after a list of calls -/
+def cafter (x : Inst) : List Call → Inst
+  | [] => x
+  | c :: cs => cafter (cstep x c).1 cs
+
+/-- a history over a family of objects (one index is the module-level global) -/
+def crun (st : Nat → Inst) : List (Nat × Call) → List (Nat × Out)
+  | [] => []
+  | (i, c) :: h =>
+    let (x', o) := cstep (st i) c
+    let rest := crun (fun j => if j = i then x' else st j) h
+    match o with
+    | some out => (i, out) :: rest
+    | none => rest
+
+/-- `n` single `gauss()` calls -/
+def gaussIter : Gen → Nat → Gen × List GaussDesc
+  | g, 0 => (g, [])
+  | g, n+1 =>
+    let (g1, o) := step g .gauss
+    let (g2, ds) := gaussIter g1 n
+    match o with
+    | .gauss d => (g2, d ++ ds)
+    | _ => (g2, ds)
+
+/-- seed normalisation of `CobaRandom.__init__` as a function of the kind of seed object:
+`int` (incl. `bool`) and integral `float` go through `int(seed)`; everything else through
+`str(seed or time.time())` bytes (the harness supplies `str(seed)` as bytes). -/
+inductive SeedObj
+  | int (z : Int)
+  | integralFloat (z : Int)
+  | other (strBytes : List Nat)
+deriving Repr
+
+/-- the value stored in `self._seed` -/
+def seedAttr : SeedObj → Int
+  | .int z => z
+  | .integralFloat z => z
+  | .other bs => (normBytes bs : Nat)
+
+/-- the LCG state the stream starts from -/
+def seedState : SeedObj → Nat
+  | .int z => normInt z
+  | .integralFloat z => normInt z
+  | .other bs => normBytes bs
+
+/-- modulus used for non-integer seeds (`% 2**20`) -/
+def strMod : Nat := 1048576
+
+/-! ### source-level facts the model relies on (translator tie, `Generated/C05Source.lean`)
+Each entry names a place in `coba/random.py` and the literal / name the model assumes there:
+the seed-normalisation branches of `CobaRandom.__init__`, the step and yield of `_next_uniform`,
+the comparator of the weighted `choice`, what `__reduce__` stores, which module functions
+delegate to the method of the same name on `_random`, and the default bounds. -/
+def srcFacts : List (String × String) :=
+  [("init.int_types", "int"), ("init.float_guard", "float.is_integer"), ("init.int_conv", "int"),
+   ("init.str_conv", "str"), ("init.encoding", "utf-8"), ("init.byteorder", "big"),
+   ("init.falsy_fallback", "time.time"), ("uniform.step_op", "&"), ("uniform.yield_op", "/"),
+   ("choice.cmp", "__lt__"), ("choice.unweighted_conv", "int"), ("reduce.args", "_seed"),
+   ("module.seed", "_random=CobaRandom(seed)"),
+   ("module.delegates", "random,randoms,shuffle,randint,randints,choice,choicew,gauss,gausses"),
+   ("gauss.zero_guard", "while U == 0")]
+
+def srcNums : List (String × Int) :=
+  [("init.str_mod", 1048576), ("uniform.mask_sub", 1),
+   ("default.random.min", 0), ("default.random.max", 1),
+   ("default.randoms.min", 0), ("default.randoms.max", 1),
+   ("default.gauss.mu", 0), ("default.gauss.sigma", 1),
+   ("default.gausses.mu", 0), ("default.gausses.sigma", 1),
+   ("gauss.log_coef", -2), ("gauss.angle_coef", 2), ("randint.plus", 1), ("randints.plus", 1)]
+
 end Coba.C05
